@@ -176,5 +176,63 @@ def _first_diff(a, b) -> str:
     return "no visible difference in detail view"
 
 
-FAMILIES = {"batches": Family("batches", gen, run, case_timeout=1200.0)}
-BUDGET = {"quick": {"batches": 48}, "thorough": {"batches": 1500}}
+# --------------------------------------------------------------------------
+# second layer (thorough tier): the repository's own seeded tests as scenarios
+
+
+def gen_suite(rng: random.Random, tier: str) -> dict:
+    return {"hashseeds": ["0", "0", "1", "12345"], "select": ["tests/integration", "tests/unit"]}
+
+
+def run_suite(case: dict) -> Result:
+    import tempfile
+    from concurrent.futures import ThreadPoolExecutor
+
+    res = Result()
+    root = repo_root()
+    tmp = tempfile.mkdtemp(prefix="c03suite-", dir=os.path.join(HERE, ".work"))
+
+    def one(idx_hs):
+        idx, hs = idx_hs
+        out = os.path.join(tmp, f"run{idx}.json")
+        env = dict(os.environ)
+        env["PYTHONHASHSEED"] = hs
+        env["PYTHONPATH"] = HERE + ":" + root
+        env["HSVERIF_C03_OUT"] = out
+        env["HS_REPO"] = root
+        subprocess.run(
+            [sys.executable, "-m", "pytest", "-q", "-p", "no:cacheprovider", "-p", "hsverif.c03_pytest_plugin", "--timeout=900", *case["select"]],
+            cwd=root, env=env, capture_output=True, text=True, timeout=3000, check=False,
+        )
+        return json.load(open(out)) if os.path.exists(out) else {}
+
+    try:
+        with ThreadPoolExecutor(max_workers=4) as ex:
+            runs = list(ex.map(one, enumerate(case["hashseeds"])))
+    finally:
+        import shutil
+
+        shutil.rmtree(tmp, ignore_errors=True)
+    a, b = runs[0], runs[1]
+    if not a or not b:
+        res.inconclusive = "suite run produced no digests"
+        return res
+    eligible = [t for t in a if t in b and a[t] == b[t] and a[t][0] > 0]
+    res.count("executions_compared", len(eligible) * len(runs))
+    res.count("suite_tests_with_deliveries", sum(1 for t in a if a[t][0] > 0))
+    res.count("suite_tests_eligible", len(eligible))
+    res.count("events_monitored", sum(a[t][0] for t in eligible))
+    for t in eligible:
+        for hs, r in zip(case["hashseeds"][2:], runs[2:]):
+            if t in r and r[t] != a[t]:
+                res.add("suite-test-digest-differs", t.split("::")[0], "hash-seed-deliveries", f"{t}: hashseed 0 -> {a[t]}, hashseed {hs} -> {r[t]}")
+    res.nontrivial = len(eligible) > 50
+    res.fingerprint = "suite-layer"
+    return res
+
+
+FAMILIES = {
+    "batches": Family("batches", gen, run, case_timeout=1200.0),
+    "suite": Family("suite", gen_suite, run_suite, case_timeout=3400.0),
+}
+BUDGET = {"quick": {"batches": 48}, "thorough": {"batches": 1500, "suite": 1}}
